@@ -236,4 +236,35 @@ PLANS = {
         "trusted_base": ["harness/pybind_stub/pybind11/pybind11.h", "harness/py_stub/coloquinte_pybind.py", "tools/rt_check.py", "CPython"],
         "runs": [R("h_export", "asan", "c20.roundtrip", 600, 20000), R("h_bind", "asan", "c20.bindings", 256, 256, exhaustive=True)],
     },
+    "C06": {
+        "level": "exploration",
+        "rule": "placeGlobal on generated circuits of the C06 domain (>= 1 movable cell of positive area, every row >= 4 row heights "
+                "wide, fixed cells / obstructions anywhere, 1..60 cells, large magnitudes) x efforts, seeds, 4 net models, 6 rough "
+                "legalization cost models, window sizes, 1-D transport on/off, export blending in [-0.5,1.5], 1..40 steps inside the "
+                "numerically moderate box; monitors inside every callback: movable coordinates finite (not INT_MIN, |v| <= 2^30; "
+                "-fsanitize=float-cast-overflow traps the conversion itself), at every UpperBound callback each movable cell centre "
+                "within the rows' bounding box + 0.5 + 2 ulp; on return |final - ((1-w) L + w U)| <= 0.5(|1-w|+|w|) + 0.5 + ulps per "
+                "coordinate with L/U the last LowerBound/UpperBound exports; any exception is a violation; non-trivial = returned "
+                "after >= 2 UpperBound callbacks (or ran without callback); distinct = profile, features, net model, cost model, blend class, #UB",
+        "assumptions": ["CG tolerance >= 1e-6, approximation / cutoff distances >= 0.1 (moderate box of the property)"],
+        "runs": [R("h_global", "asan", "c06.global", 1600, 8000), R("h_global", "fast", "c06.global", 0, 40000)],
+    },
+    "C08": {
+        "level": "exploration",
+        "rule": "(a) pure function: each of placeGlobal / legalize / placeDetailed run 5 times on the same input (original, copy with an "
+                "observing callback, immediately again, after an unrelated placement in the same process, heap copy): bitwise equal "
+                "solution(); (b) schedules: through the COLOQUINTE_VERIF hook at the begin/end of NetModel::solveWithPenalty, every "
+                "lower-bound step of a run is forced into a chosen completion order (hold the first / the second beginner until the "
+                "other ended, alternate, 4 random masks, random microsecond delays) under all-core and single-core affinity; every "
+                "result must equal the undisturbed run bitwise; the begin/end log proves which orders were seen (x_solve_finished_first, "
+                "y_solve_finished_first must both be > 0, else the run is inconclusive); (c) the schedule workload again in the "
+                "ThreadSanitizer build (halt_on_error): any report aborts the case; non-trivial = result differs from the input / both "
+                "completion orders observed; distinct = stage/features/steps/order patterns",
+        "assumptions": ["the lower model address is the x model (xtopo_ is declared before ytopo_ in GlobalPlacer): only used to label the observed orders",
+                        "schedule coverage = completion orders of the two tasks (both forced), not every instruction interleaving; TSan covers the executions produced"],
+        "require_counters": ["c08.sched.x_solve_finished_first", "c08.sched.y_solve_finished_first"],
+        "runs": [R("h_global", "asan", "c08.pure", 300, 3000), R("h_global", "asan", "c08.sched", 64, 800),
+                 R("h_global", "tsan", "c08.sched.light", 48, 600), R("h_global", "tsan", "c08.pure", 32, 300),
+                 R("h_global", "fast", "c08.pure", 0, 10000), R("h_global", "fast", "c08.sched", 0, 1500)],
+    },
 }
